@@ -326,6 +326,66 @@ def shard_attr_expiry(arg) -> E.Tally:
     return t
 
 
+STAGGER_FAMILIES = ("T_rp", "SP_rp", "MODE", "CFG_rp", "WIN", "RLY", "ACT", "TRV_T", "TRV_SP")
+
+
+def shard_staggered(arg) -> E.Tally:
+    """Two messages of one kind for two different zones/devices, received 1.5 lifetimes apart: when the older one has
+    expired (and been read, which makes the library drop it) the younger one is still live and must still be reported."""
+    i, n = arg
+    logcap.install()
+    t = E.Tally()
+    L = letters()
+    fam: dict[str, list[str]] = {}
+    for name in L:
+        f = name.split("(")[0]
+        if f in STAGGER_FAMILIES and name.endswith(",1)"):
+            fam.setdefault(f, []).append(name)
+    j = 0
+    for f, names in sorted(fam.items()):
+        for a in names:
+            for b in names:
+                ents_a = {e for (e, _) in L[a][1]}
+                ents_b = {e for (e, _) in L[b][1]}
+                if a == b or ents_a & ents_b:
+                    continue
+                for order in ("old-first", "young-first"):
+                    j += 1
+                    if j % n != i:
+                        continue
+                    w, gwy = new_world(True)
+                    try:
+                        w.rx(L[a][0])
+                        msgs = [m for d in gwy.devices for m in d._msg_db] + [m for m in gwy.tcs._msgs.values()]
+                        life = max((m._pkt._lifespan for m in msgs if L[a][0].strip()[:50] in str(m._pkt)), default=None, key=lambda x: x if isinstance(x, td) else td(0))
+                        if not isinstance(life, td) or life <= td(0):
+                            continue
+                        t.n += 1
+                        w.set_time(w.now() + life * 1.5)
+                        w.rx(L[b][0])
+                        w.set_time(w.now() + life * 0.5 + td(seconds=30))  # a: 2L+30 s old (expired), b: 0.5L+30 s old (live)
+                        seq = []
+                        reads_b = []
+                        steps = (("a", a), ("a", a), ("b", b), ("b", b)) if order == "old-first" else (("b", b), ("a", a), ("a", a), ("b", b))
+                        for tag, nm in steps:
+                            for (ent, attr), want in L[nm][1].items():
+                                got = read(gwy, ent, attr)
+                                seq.append((tag, ent, attr, got))
+                                if tag == "b":
+                                    reads_b.append((ent, attr, want, got))
+                            w.loop.settle()
+                        t.nontrivial += 1
+                        rep = {"staggered": [a, b, order]}
+                        for ent, attr, want, got in reads_b:
+                            if got != want:
+                                t.bad(f"C14:live-value-lost-when-another-expires:{attr}", f"{a} at t0, {b} at t0+1.5L (L={life}); at t0+2L+30s ({order}): {ent}.{attr} reads {got!r}, its message is only 0.5L+30s old and says {want!r}; reads: {seq}", rep)
+                                break
+                    finally:
+                        w.close()
+    t.by["staggered"] = t.n
+    return t
+
+
 def _dispatch(job) -> E.Tally:
     return globals()[job[0]](job[1])
 
@@ -338,6 +398,7 @@ def run(ctx) -> None:
         jobs += [("shard_hist", (g, i, nsh, depth)) for i in range(nsh)]
     jobs += [("shard_expiry", (i, 16, ctx.quick)) for i in range(16)]
     jobs += [("shard_attr_expiry", (i, 4)) for i in range(4)]
+    jobs += [("shard_staggered", (i, 8)) for i in range(8)]
     total = E.pmap(_dispatch, jobs, ctx.seed)
     ctx.vcount = {k: v["count"] for k, v in total.viol.items()}
     for k, v in sorted(total.viol.items()):
@@ -351,13 +412,15 @@ def run(ctx) -> None:
         histories=nh,
         histories_by_group={k: v for k, v in total.by.items() if k in GROUPS},
         expiry_cases=total.by.get("expiry", 0),
+        staggered_expiry_cases=total.by.get("staggered", 0),
         depth=depth,
         exhaustive=True,
         samples=total.samples[:5] or [["T_rp(00,1)"]],
         rule=f"all histories of depth {depth} over 5 letter groups (per-zone RP, array I over 3 zone subsets, device broadcasts; zones 00/01/0B, 2 values, 2 "
         "devices; each group = every letter touching an attribute family + interleaved letters for other zones/codes) fed to a real Gateway; after "
         "every step every attribute named by the reference equals the value of the newest message for it. Expiry: one frame per message kind x 8 clock "
-        "offsets around L and 2L, and all 65,536 sync-cycle countdown words; attribute-level: after 2L+30 s the attribute reads unknown on the first and later reads",
+        "offsets around L and 2L, and all 65,536 sync-cycle countdown words; attribute-level: after 2L+30 s the attribute reads unknown on the first and later reads; staggered: for every ordered pair of same-kind messages "
+        "for different zones/devices 1.5 lifetimes apart, once the older has expired and been read the younger is still reported (both read orders)",
     )
     ctx.assumptions += ["a message kind's lifetime L is the library's own pkt._lifespan table (for 1F09: the countdown in the payload)", "grace after 2L: up to 10 s"]
 
@@ -370,6 +433,9 @@ def replay(rep: dict):
     elif "frame" in rep:
         fr = rep["frame"]
         check_expiry(t, fr, lifetime_from_payload=int(fr.split()[-1][2:6], 16) / 10 if " 1F09 003 " in fr and fr.startswith(" I") else None)
+    elif "staggered" in rep:
+        for i in range(8):
+            t.merge(shard_staggered((i, 8)))
     else:
         for i in range(4):
             t.merge(shard_attr_expiry((i, 4)))
